@@ -316,7 +316,7 @@ func lagRows(wd *World) []string {
 	l := wd.lag
 	// with unconfirmed binding deposits in the wallet the API meets their rows first (and gives up on an unmined
 	// parent: ErrAPIQueryDataFailed): the single row rendered here is the whole story only without them
-	if l == nil || !l.sameLoc || len(wd.ws) == 0 || wd.w.WM.CurrentWallet() != wd.ws[0].id || len(wd.pend) > 0 {
+	if l == nil || !l.sameLoc || wd.lagDirty || len(wd.ws) == 0 || wd.w.WM.CurrentWallet() != wd.ws[0].id || len(wd.pend) > 0 {
 		return nil // (another wallet may have been selected by an earlier request of the instance)
 	}
 	// has the wallet followed the node in the meantime? then the row is gone (or points to the new chain)
